@@ -1,4 +1,5 @@
 import PPProofs.Lemmas.ParseMono
+import PPProofs.Lemmas.ParseFwd
 /-!
 # C07 — error stops and fatal exceptions are never backtracked over
 
@@ -10,12 +11,6 @@ Every theorem quantifies over **all** closures `p` (= behaviour of the sub-expre
 list shapes; none is restricted to a sample.
 -/
 namespace PP.Parse
-
-/-- a soft (backtrackable) failure: `ParseException` or a raw `IndexError` -/
-def Out.soft : Out → Bool
-  | .fail .parse _ => true
-  | .idx => true
-  | _ => false
 
 /-! ### error stop -/
 
